@@ -228,6 +228,179 @@ def c_opq(t, i):
     return hx(c.composed_bytes)
 
 
+# ---- vector edit histories ---------------------------------------------------------------------------
+VEC_CLASSES = ['TlsSessionIdVector', 'TlsRenegotiatedConnection', 'TlsCipherSuiteVector', 'TlsCompressionMethodVector',
+               'TlsCertificateStatusRequestResponderIdList', 'SshKexAlgorithmVector', 'TlsEllipticCurveVector',
+               'TlsClientCertificateTypeVector']
+
+
+def vec_item(cls_name, tag, size):
+    """The library object standing for item (tag, size) of a vector class; None if that class has no such item."""
+    from harness import gen_tables
+    from cryptoparser.tls.grease import TlsInvalidTypeOneByte, TlsInvalidTypeTwoByte
+    if cls_name in ('TlsSessionIdVector', 'TlsRenegotiatedConnection', 'TlsClientCertificateTypeVector'):
+        return tag % 256 if size == 1 else None
+    if cls_name in ('TlsCipherSuiteVector', 'TlsEllipticCurveVector', 'TlsCompressionMethodVector'):
+        d = gen_tables.enum_vectors()[cls_name]
+        members = list(factories()['f'][d['factory']][2])
+        if size != d['w']:
+            return None
+        if tag < min(len(members), 40):
+            return members[tag]
+        return (TlsInvalidTypeOneByte if d['w'] == 1 else TlsInvalidTypeTwoByte)((0x0a0a + tag) % (256 ** d['w']))
+    if cls_name == 'TlsCertificateStatusRequestResponderIdList':
+        from cryptoparser.tls.extension import TlsCertificateStatusRequestResponderId
+        return TlsCertificateStatusRequestResponderId([tag % 256] * (size - 2)) if size >= 3 else None
+    if cls_name == 'SshKexAlgorithmVector':
+        return chr(97 + tag % 26) + 'x' * (size - 1) if size >= 1 else None
+    raise KeyError(cls_name)
+
+
+def vec_run(cls_name, init, ops):
+    from harness import gen_tables
+    cls = gen_tables.array_classes()[cls_name]['cls']
+    universe = {}
+
+    def item(s):
+        tag, size = (int(x) for x in s.split(':'))
+        obj = vec_item(cls_name, tag, size)
+        if obj is None:
+            raise KeyError('no item %s for %s' % (s, cls_name))
+        universe[s] = obj
+        return obj
+
+    def items(s):
+        return [] if s == '-' else [item(x) for x in s.split(',')]
+
+    def name(obj):
+        for k, v in universe.items():
+            if v is obj:
+                return k
+        for k, v in universe.items():
+            if type(v) is type(obj) and v == obj:
+                return k
+        return '?'
+
+    def optz(s):
+        return None if s == '_' else int(s)
+
+    d = gen_tables.array_classes()[cls_name]
+    param = cls.get_param()
+
+    def total(l):
+        return sum(param.get_item_size(x) for x in l)
+
+    v = cls(items(init))
+    ref = list(v)
+    fails = []
+    outs = []
+    for o in ([] if ops == '-' else ops.split(';')):
+        a = o.split('/')
+        cand = list(ref)
+        list_exc = None
+        try:    # the plain-list semantics the property compares with
+            if a[0] == 'app':
+                args = (item(a[1]),)
+                cand.append(*args)
+                act = lambda: v.append(*args)
+            elif a[0] == 'ins':
+                args = (int(a[1]), item(a[2]))
+                cand.insert(*args)
+                act = lambda: v.insert(*args)
+            elif a[0] == 'del':
+                args = (int(a[1]),)
+                act = lambda: v.__delitem__(*args)
+                del cand[args[0]]
+            elif a[0] == 'set':
+                args = (int(a[1]), item(a[2]))
+                act = lambda: v.__setitem__(*args)
+                cand[args[0]] = args[1]
+            elif a[0] == 'dsl':
+                args = (slice(optz(a[1]), optz(a[2])),)
+                act = lambda: v.__delitem__(*args)
+                del cand[args[0]]
+            elif a[0] == 'ssl':
+                args = (slice(optz(a[1]), optz(a[2])), items(a[3]))
+                act = lambda: v.__setitem__(*args)
+                cand[args[0]] = list(args[1])
+            elif a[0] == 'ext':
+                args = (items(a[1]),)
+                act = lambda: v.extend(*args)
+                cand.extend(*args)
+            elif a[0] == 'iadd':
+                args = (items(a[1]),)
+                act = lambda: v.__iadd__(*args)
+                cand += args[0]
+            elif a[0] == 'pop':
+                args = () if a[1] == '_' else (int(a[1]),)
+                act = lambda: v.pop(*args)
+                cand.pop(*args)
+            elif a[0] == 'rem':
+                args = (item(a[1]),)
+                act = lambda: v.remove(*args)
+                cand.remove(*args)
+            elif a[0] == 'rev':
+                act = v.reverse
+                cand.reverse()
+            elif a[0] == 'clr':
+                act = v.clear
+                cand.clear()
+            else:
+                return None, 'BADCMD', []
+        except (IndexError, ValueError) as e:
+            list_exc = type(e).__name__
+        before = list(v)
+        try:
+            act()
+            outs.append('A')
+            if list_exc is not None:
+                fails.append('%s accepted although a plain list raises %s' % (o, list_exc))
+            elif len(cand) != len(v) or any(x is not y and x != y for x, y in zip(cand, v)):
+                fails.append('%s: vector holds %d items, a plain list would hold %d (or different ones)' % (o, len(v), len(cand)))
+            ref = cand if list_exc is None else ref
+        except (NotEnoughData, TooMuchData) as e:
+            outs.append('R:' + type(e).__name__)
+            if list(v) != before or len(v) != len(before):
+                fails.append('%s refused with %s but changed the vector from %d to %d items' % (o, type(e).__name__, len(before), len(v)))
+                ref = list(v)
+            if list_exc is None and d['min'] <= total(cand) <= d['max']:
+                fails.append('%s refused with %s although the result (%d bytes) is within %d..%d' % (
+                    o, type(e).__name__, total(cand), d['min'], d['max']))
+        except (IndexError, ValueError, AttributeError, TypeError) as e:
+            outs.append('R:' + type(e).__name__)
+            if type(e).__name__ != list_exc:
+                fails.append('%s raised %s (a plain list: %s)' % (o, type(e).__name__, list_exc or 'succeeds'))
+            if list(v) != before:
+                fails.append('%s raised %s and changed the vector' % (o, type(e).__name__))
+                ref = list(v)
+        real = total(list(v))
+        if v._items_size != real:  # pylint: disable=protected-access
+            fails.append('after %s: _items_size=%d but the items take %d bytes' % (o, v._items_size, real))  # pylint: disable=protected-access
+        if not d['min'] <= real <= d['max']:
+            fails.append('after %s: body size %d outside %d..%d' % (o, real, d['min'], d['max']))
+    if d['num'] and d['kind'] != 'VectorString':
+        try:
+            c = bytes(v.compose())
+            if int.from_bytes(c[:d['num']], 'big') != len(c) - d['num']:
+                fails.append('composed prefix %d but %d body bytes follow' % (int.from_bytes(c[:d['num']], 'big'), len(c) - d['num']))
+            if len(c) - d['num'] != total(list(v)):
+                fails.append('composed body has %d bytes, the size bookkeeping says %d' % (len(c) - d['num'], total(list(v))))
+        except InvalidValue:
+            fails.append('compose() of a vector within its bounds raised InvalidValue')
+    return v, ','.join(outs) + '|' + ','.join(name(x) for x in v) + '|' + str(v._items_size), fails  # pylint: disable=protected-access
+
+
+def vec_cmd(cls_name, init, ops):
+    return vec_run(cls_name, init, ops)[1]
+
+
+def impl_vec_line(line):
+    """vec commands print their outcome without the OK prefix (the model prints the trace directly)."""
+    ws = line.split(' ')
+    r = outcome(lambda: vec_cmd(*ws[1:]))
+    return r[3:] if r.startswith('OK ') else r
+
+
 COMMANDS = {
     'popq': p_opq, 'copq': c_opq,
     'penum': p_enum, 'cenum': c_enum, 'pinv': p_inv, 'pevec': p_evec, 'cevec': c_evec,
@@ -238,6 +411,8 @@ COMMANDS = {
 
 def impl_line(line):
     ws = line.split(' ')
+    if ws[0] == 'vec':
+        return impl_vec_line(line)
     fn = COMMANDS.get(ws[0])
     if fn is None:
         return 'BADCMD'
